@@ -186,7 +186,7 @@ class SymR:
         E = _ENG[0]
         r = E.fresh("sqrt")
         E.assume(z3.And(r >= 0, r * r == s.e))
-        return SymR(r)
+        return SymRoot(r, s.e)
 
     def conjugate(s):
         return s
@@ -260,6 +260,21 @@ def _mul(a, b):
 
 def _div(a, b):
     return a / b
+
+
+class SymRoot(SymR):
+    """non-negative root r of `of` (r*r == of is on the path condition);
+    squaring returns `of` itself so polynomial identities stay polynomial"""
+    __slots__ = ("of",)
+
+    def __init__(self, e, of):
+        self.e = e
+        self.of = of
+
+    def __pow__(s, n):
+        if isinstance(n, (int, _np.integer)) and int(n) == 2:
+            return SymR(s.of)
+        return SymR.__pow__(s, n)
 
 
 class SymI(SymR):
@@ -474,8 +489,9 @@ class SymC:
     def __abs__(s):
         E = _ENG[0]
         r = E.fresh("cabs")
-        E.assume(z3.And(r >= 0, r * r == s.re * s.re + s.im * s.im))
-        return SymR(r)
+        sq = s.re * s.re + s.im * s.im
+        E.assume(z3.And(r >= 0, r * r == sq))
+        return SymRoot(r, sq)
 
     def abs2(s):
         return SymR(s.re * s.re + s.im * s.im)
